@@ -21,6 +21,7 @@ def c02(chk, tier):
     rules_wrapper.r_metawindow(P(), chk)      # a body paragraph must not be swallowed as metadata after a blank line
     rules_dispatch.r_sibling_outline(P(), chk)
     rules_state.r_incdec(P(), chk)            # a leaked depth counter ends with the parser refusing to descend: text reaches the writers unparsed
+    rules_mem.r_array(P(), chk)               # "never takes the host process down": no write past a fixed-size buffer
 
 
 def c05(chk, tier):
@@ -57,6 +58,8 @@ def c06(chk, tier):
     rules_wrap.r_wrap(P(), chk)
     rules_wrap.r_ptrptr(P(), chk)
     rules_kind.r_enumkind(P(), chk)
+    rules_state.r_reset(P(), chk)       # a (re)parse starts from a clean engine: containers emptied, per-parse flags re-assigned
+    rules_wrap.r_optorder(P(), chk)
 
 
 def c01(chk, tier):
@@ -131,6 +134,8 @@ def c15(chk, tier):
     rules_misc.r_mate_guard(P(), chk)
     rules_misc.r_span_split(P(), chk)
     rules_mem.r_stalelen(P(), chk)         # token spans are cut from the text the length was read from
+    rules_mem.r_tokrange(P(), chk)         # ... and the tokenizer is given a length assigned after the last edit of the text
+    rules_mem.r_scanstop(P(), chk)         # character scans that size a token stop at the terminating NUL
     rules_mem.type_field_invariant(P(), chk)
 
 
@@ -139,6 +144,8 @@ def c12(chk, tier):
     rules_critic.r_dual(P(), chk)
     rules_misc.r_link(P(), chk)     # accept/reject start their back-to-front walk at child->tail
     rules_misc.r_rangebase(P(), chk)    # the range entry points look at (text + start, len), not at the head of the string
+    rules_wrap.r_optorder(P(), chk)     # -a / -r reach the library whatever other options are given
+    rules_recurse.r_counter(P(), chk)   # the pair matcher (shared with the CriticMarkup tokenizer) keeps its opener counts exact
 
 
 def c14(chk, tier):
@@ -162,6 +169,7 @@ def c20(chk, tier):
     rules_wrapper.r_metakey(P(), chk)
     rules_wrapper.r_wrapbit(P(), chk)
     rules_wrapper.r_wrapper_pure(P(), chk)
+    rules_wrapper.r_metawindow(P(), chk)     # a body paragraph swallowed as metadata changes the body and the complete/snippet decision
 
 
 def c11(chk, tier):
@@ -173,6 +181,7 @@ def c11(chk, tier):
     rules_wrapper.r_metawindow(P(), chk)
     rules_misc.r_byteclass(P(), chk)   # value trimming classifies bytes: a byte >= 0x80 classed as whitespace cuts a character in two
     rules_wrapper.r_metascan(P(), chk)
+    rules_state.r_reset(P(), chk)      # metadata entries of an earlier query / parse are gone before the next parse
 
 
 def c10(chk, tier):
@@ -205,6 +214,7 @@ def c09(chk, tier):
     rules_wrap.r_dirname_once(P(), chk)      # the asset folder handed to the package builders is the input's own directory
     rules_wrap.r_ptrptr(P(), chk)
     rules_format.r_formatpair(P(), chk)
+    rules_format.r_rawformat(P(), chk)
     rules_format.r_editdelta(P(), chk)
     rules_mem.r_stalelen(P(), chk)
 
